@@ -2,7 +2,7 @@
    ExtrOcamlBasic only: bool, option, list, prod, unit, sumbool map to OCaml's; Z, N, positive,
    nat stay the extracted inductives.  No Extract Constant of ours. *)
 From Coq Require Import Extraction ExtrOcamlBasic.
-From KV Require Import DetectProofs Base FP Params ParamsProofs Weave WeaveProofs WeaveCheck Sort Detect Api Cmp.
+From KV Require Import DetectProofs Base FP Params ParamsProofs Weave WeaveProofs WeaveCheck Sort Detect Api Cmp Bpm.
 Extraction Language OCaml.
 Set Extraction Optimize.
 Extraction "../ocaml/kvmodel.ml"
@@ -14,4 +14,5 @@ Extraction "../ocaml/kvmodel.ml"
   alpha_defDNA alpha_redPROTEIN alpha_ambPROTEIN histogram detect_sums detect_alphabet bits_of_f64
   exact_margin total_letters class_count only_po only_u is_nuc_letter
   compare_model ref_aligned
+  bpm_block bpm64 bpm256 sed firstn
   kpath_wfb ops_fitb integrity_b subalignment_b strip_allgap degap w_gaps w_sip.
